@@ -1,6 +1,7 @@
 package main
 
 import (
+	"hash/fnv"
 	"bufio"
 	"encoding/json"
 	"fmt"
@@ -337,140 +338,164 @@ func runProp(cfg runConfig) int {
 		json.Unmarshal(b, &proof)
 	}
 
-	// 1. cases: corpus first, then the generator
-	cases := loadCorpus(cfg.corpusDir, p.ID)
-	rng := rand.New(rand.NewSource(cfg.seed))
-	seen := map[string]bool{}
-	for _, c := range cases {
-		seen[c.Line] = true
-	}
-	p.Gen(cfg.tier, rng, func(c Case) {
-		if seen[c.Line] {
-			return
-		}
-		seen[c.Line] = true
-		cases = append(cases, c)
-	})
-
-	// 2. run the implementation
-	implOut := runImplAll(p, cases)
-
-	// 3. run the model
-	var modelLines []string
-	var modelIdx []int
-	for i, c := range cases {
-		if p.NoModel != nil && p.NoModel(c.Line) {
-			continue
-		}
-		modelLines = append(modelLines, c.Line)
-		modelIdx = append(modelIdx, i)
-	}
-	modelOut := make([]string, len(cases))
-	hasModel := make([]bool, len(cases))
-	driverErr := ""
-	if proof.DriverOK || cfg.proofFile == "" {
-		outs, err := runDriver(cfg.driver, modelLines)
-		if err != nil {
-			driverErr = err.Error()
-		}
-		for k, o := range outs {
-			if k < len(modelIdx) {
-				modelOut[modelIdx[k]] = o
-				hasModel[modelIdx[k]] = true
-			}
-		}
-	} else {
-		driverErr = "model driver could not be built"
-	}
-
-	// 4. compare + oracle
+	// 1.-4. cases (corpus first, then the generator) are processed in batches so that the thorough
+	// tiers with millions of cases run in bounded memory: implementation, model, comparison, oracle
 	agree := p.Agree
 	if agree == nil {
 		agree = func(m, i string) bool { return m == i }
 	}
-	retimed := 0
-	if p.Timed {
-		for i, c := range cases {
-			bad := func() bool {
-				return (hasModel[i] && !agree(modelOut[i], implOut[i])) || (p.Oracle != nil && p.Oracle(c.Line, implOut[i]) != "")
-			}
-			for try := 0; try < 2 && bad(); try++ {
-				implOut[i] = safeImpl(p, c.Line)
-				retimed++
-			}
-		}
-		if retimed > 0 {
-			fmt.Fprintf(os.Stderr, "%s: %d re-runs of timing-dependent answers\n", p.ID, retimed)
-		}
-	}
 	type fail struct {
-		idx    int
-		clause string
+		line, out, clause, key string
 	}
-	var diverge []int
+	type div struct {
+		line, impl, model string
+	}
+	var diverge []div
 	var oracleFails []fail
+	nDiverge, nOracleFails, nCases, nModel, nNontrivial, retimed := 0, 0, 0, 0, 0, 0
 	kinds := map[string]int{}
 	classes := map[string]int{}
-	nontrivial := map[string]bool{}
-	for i, c := range cases {
-		kinds[c.Kind]++
-		cls := implOut[i]
-		if j := strings.IndexAny(cls, " :["); j >= 0 {
-			cls = cls[:j]
+	knownSeen := map[string]bool{}
+	reportedKeys := map[string]bool{}
+	driverErr := ""
+	samples := []interface{}{}
+	const batchSize = 200000
+	processBatch := func(cases []Case) {
+		if len(cases) == 0 {
+			return
 		}
-		if len(cls) > 24 {
-			cls = cls[:24]
+		implOut := runImplAll(p, cases)
+		var modelLines []string
+		var modelIdx []int
+		for i, c := range cases {
+			if p.NoModel != nil && p.NoModel(c.Line) {
+				continue
+			}
+			modelLines = append(modelLines, c.Line)
+			modelIdx = append(modelIdx, i)
 		}
-		classes[cls]++
-		if p.Nontrivial == nil || p.Nontrivial(c.Line, implOut[i]) {
-			nontrivial[c.Line] = true
+		nModel += len(modelLines)
+		modelOut := make([]string, len(cases))
+		hasModel := make([]bool, len(cases))
+		if proof.DriverOK || cfg.proofFile == "" {
+			outs, err := runDriver(cfg.driver, modelLines)
+			if err != nil {
+				driverErr = err.Error()
+			}
+			for k, o := range outs {
+				if k < len(modelIdx) {
+					modelOut[modelIdx[k]] = o
+					hasModel[modelIdx[k]] = true
+				}
+			}
+		} else {
+			driverErr = "model driver could not be built"
 		}
-		if hasModel[i] && !agree(modelOut[i], implOut[i]) {
-			diverge = append(diverge, i)
-		}
-		if p.Oracle != nil {
-			if cl := p.Oracle(c.Line, implOut[i]); cl != "" {
-				oracleFails = append(oracleFails, fail{i, cl})
+		if p.Timed {
+			for i, c := range cases {
+				bad := func() bool {
+					return (hasModel[i] && !agree(modelOut[i], implOut[i])) || (p.Oracle != nil && p.Oracle(c.Line, implOut[i]) != "")
+				}
+				for try := 0; try < 2 && bad(); try++ {
+					implOut[i] = safeImpl(p, c.Line)
+					retimed++
+				}
 			}
 		}
+		for i, c := range cases {
+			kinds[c.Kind]++
+			cls := implOut[i]
+			if j := strings.IndexAny(cls, " :["); j >= 0 {
+				cls = cls[:j]
+			}
+			if len(cls) > 24 {
+				cls = cls[:24]
+			}
+			classes[cls]++
+			if p.Nontrivial == nil || p.Nontrivial(c.Line, implOut[i]) {
+				nNontrivial++
+			}
+			if hasModel[i] && !agree(modelOut[i], implOut[i]) {
+				nDiverge++
+				if len(diverge) < 20 {
+					diverge = append(diverge, div{c.Line, implOut[i], modelOut[i]})
+				}
+			}
+			if p.Oracle != nil {
+				if cl := p.Oracle(c.Line, implOut[i]); cl != "" {
+					nOracleFails++
+					key := ""
+					if p.FindingKey != nil {
+						key = p.FindingKey(c.Line, implOut[i], cl)
+					}
+					if _, ok := knownKeys[key]; ok && key != "" {
+						knownSeen[key] = true
+					} else if rk := cl + "|" + key; !reportedKeys[rk] && len(oracleFails) < 50 {
+						reportedKeys[rk] = true
+						oracleFails = append(oracleFails, fail{c.Line, implOut[i], cl, key})
+					}
+				}
+			}
+		}
+		if len(samples) < 6 {
+			for _, i := range []int{0, len(cases) / 2} {
+				if len(samples) < 6 {
+					samples = append(samples, map[string]string{"case": clip(cases[i].Line, 300), "impl": clip(implOut[i], 300), "model": clip(modelOut[i], 300)})
+				}
+			}
+		}
+		nCases += len(cases)
+	}
+	seen := map[uint64]struct{}{}
+	hashOf := func(s string) uint64 {
+		h := fnv.New64a()
+		h.Write([]byte(s))
+		return h.Sum64()
+	}
+	var batch []Case
+	add := func(c Case) {
+		h := hashOf(c.Line)
+		if _, dup := seen[h]; dup {
+			return
+		}
+		seen[h] = struct{}{}
+		batch = append(batch, c)
+		if len(batch) >= batchSize {
+			processBatch(batch)
+			batch = nil
+		}
+	}
+	for _, c := range loadCorpus(cfg.corpusDir, p.ID) {
+		add(c)
+	}
+	rng := rand.New(rand.NewSource(cfg.seed))
+	p.Gen(cfg.tier, rng, add)
+	processBatch(batch)
+	batch = nil
+	seen = nil
+	if retimed > 0 {
+		fmt.Fprintf(os.Stderr, "%s: %d re-runs of timing-dependent answers\n", p.ID, retimed)
 	}
 
 	if os.Getenv("VERIF_DUMP") != "" {
-		for k, i := range diverge {
+		for k, d := range diverge {
 			if k < 10 {
-				fmt.Fprintf(os.Stderr, "DIVERGE case=%s\n  impl =%s\n  model=%s\n", clip(cases[i].Line, 400), clip(implOut[i], 300), clip(modelOut[i], 300))
+				fmt.Fprintf(os.Stderr, "DIVERGE case=%s\n  impl =%s\n  model=%s\n", clip(d.line, 400), clip(d.impl, 300), clip(d.model, 300))
 			}
 		}
 		for k, f := range oracleFails {
 			if k < 10 {
-				fmt.Fprintf(os.Stderr, "ORACLE case=%s\n  impl =%s\n  clause=%s\n", clip(cases[f.idx].Line, 400), clip(implOut[f.idx], 300), f.clause)
+				fmt.Fprintf(os.Stderr, "ORACLE case=%s\n  impl =%s\n  clause=%s\n", clip(f.line, 400), clip(f.out, 300), f.clause)
 			}
 		}
 	}
 	violations := 0
 	var lines []string
-	knownSeen := map[string]bool{}
 	nReplay := 0
 
-	// 4a. oracle failures on the real code: genuine failing inputs
-	reported := map[string]bool{}
+	// 4a. oracle failures on the real code: genuine failing inputs (each distinct clause/key once, shrunk)
 	for _, f := range oracleFails {
-		c := cases[f.idx]
-		key := ""
-		if p.FindingKey != nil {
-			key = p.FindingKey(c.Line, implOut[f.idx], f.clause)
-		}
-		if _, ok := knownKeys[key]; ok && key != "" {
-			knownSeen[key] = true
-			continue
-		}
-		// report each distinct clause/key once, shrunk
-		rk := f.clause + "|" + key
-		if reported[rk] {
-			continue
-		}
-		reported[rk] = true
-		line := c.Line
+		line := f.line
 		if !p.NoShrink {
 			line = shrink(line, func(l string) bool {
 				o := safeImpl(p, l)
@@ -499,12 +524,11 @@ func runProp(cfg runConfig) int {
 	}
 
 	// 4b. correspondence broken without a failing input
-	if violations == 0 && (len(diverge) > 0 || driverErr != "") {
+	if violations == 0 && (nDiverge > 0 || driverErr != "") {
 		detail := driverErr
 		var ops, io, mo []string
 		if len(diverge) > 0 {
-			i := diverge[0]
-			line := cases[i].Line
+			line := diverge[0].line
 			if !p.NoShrink {
 				line = shrink(line, func(l string) bool {
 					o := safeImpl(p, l)
@@ -515,7 +539,7 @@ func runProp(cfg runConfig) int {
 			o := safeImpl(p, line)
 			m, _ := runDriver(cfg.driver, []string{line})
 			ops, io, mo = []string{line}, []string{o}, m
-			detail = fmt.Sprintf("%d of %d cases: model and implementation answers differ", len(diverge), len(cases))
+			detail = fmt.Sprintf("%d of %d cases: model and implementation answers differ", nDiverge, nCases)
 		}
 		nReplay++
 		path := writeReplay(cfg, replay{Property: p.ID, Kind: "correspondence-broken", Seed: cfg.seed,
@@ -549,11 +573,6 @@ func runProp(cfg runConfig) int {
 	}
 
 	// 5. evidence
-	samples := []interface{}{}
-	step := len(cases)/6 + 1
-	for i := 0; i < len(cases); i += step {
-		samples = append(samples, map[string]string{"case": clip(cases[i].Line, 300), "impl": clip(implOut[i], 300), "model": clip(modelOut[i], 300)})
-	}
 	for _, th := range proof.Theorems {
 		if len(samples) < 14 {
 			samples = append(samples, map[string]string{"obligation": th})
@@ -567,13 +586,13 @@ func runProp(cfg runConfig) int {
 		"theorems":            proof.Theorems,
 		"axioms":              proof.Axioms,
 		"broken":              proof.Broken,
-		"evaluations":         len(cases),
-		"distinct_nontrivial": len(nontrivial),
+		"evaluations":         nCases,
+		"distinct_nontrivial": nNontrivial,
 		"rule":                p.Rule,
 		"samples":             samples,
-		"traces_validated_against_impl": len(modelLines),
-		"model_vs_impl_disagreements":   len(diverge),
-		"oracle_failures":               len(oracleFails),
+		"traces_validated_against_impl": nModel,
+		"model_vs_impl_disagreements":   nDiverge,
+		"oracle_failures":               nOracleFails,
 		"known_findings_reproduced":     keys,
 		"input_distribution":            kinds,
 		"outcome_classes":               classes,
@@ -595,7 +614,7 @@ func runProp(cfg runConfig) int {
 		os.WriteFile(cfg.outFile, b, 0o644)
 	}
 	fmt.Printf("%s %s: %d cases, %d model-checked, %d disagreements, %d oracle failures (%d known), proofs %d/%d, %.1fs\n",
-		p.ID, cfg.tier, len(cases), len(modelLines), len(diverge), len(oracleFails), len(knownSeen),
+		p.ID, cfg.tier, nCases, nModel, nDiverge, nOracleFails, len(knownSeen),
 		proof.Discharged, proof.Obligations, time.Since(start).Seconds())
 	if violations > 0 {
 		return 1
